@@ -2,6 +2,8 @@
 expat for the one call site `pyxform.utils.node(toParseString=True)`, and the reference
 "XML parser" used by oracles that read serialised output back.
 
+Tokenisation is done with regular expressions (CrossHair executes `re` symbolically), written
+from the XML 1.0 productions: STag/ETag/EmptyElemTag, Attribute, AttValue, CharData, Reference.
 Supports: optional XML declaration, elements, attributes (single/double quoted), character
 data, the five predefined entities and numeric character references, empty-element tags.
 Anything else (comments, CDATA, PI, DTD) raises XMLModelError: the code under test never
@@ -9,6 +11,7 @@ produces them, and if it did the check must not silently accept it.
 """
 from __future__ import annotations
 
+import re
 from xml.dom import minidom
 
 
@@ -16,146 +19,78 @@ class XMLModelError(Exception):
     pass
 
 
-_ENT = (("&amp;", "&"), ("&lt;", "<"), ("&gt;", ">"), ("&quot;", '"'), ("&apos;", "'"))
+_NAME = r"[^\s<>/=&\"'!?]+"
+_ATTR = r"\s+" + _NAME + r"\s*=\s*(?:\"[^<\"]*\"|'[^<']*')"
+_STAG = re.compile(r"<(" + _NAME + r")((?:" + _ATTR + r")*)\s*(/?)>")
+_ETAG = re.compile(r"</(" + _NAME + r")\s*>")
+_ONE_ATTR = re.compile(r"\s+(" + _NAME + r")\s*=\s*(?:\"([^<\"]*)\"|'([^<']*)')")
+_TEXT = re.compile(r"[^<]+")
+_REF = re.compile(r"&(?:(amp|lt|gt|quot|apos)|#([0-9]+)|#x([0-9a-fA-F]+));")
+_XMLDECL = re.compile(r"<\?xml[^?]*\?>\s*")
+_ENT = {"amp": "&", "lt": "<", "gt": ">", "quot": '"', "apos": "'"}
+
+
+def _sub_ref(m):
+    if m.group(1) is not None:
+        return _ENT[m.group(1)]
+    if m.group(2) is not None:
+        return chr(int(m.group(2)))
+    return chr(int(m.group(3), 16))
 
 
 def _unescape(s: str) -> str:
-    out = ""
-    i = 0
-    n = len(s)
-    while i < n:
-        j = s.find("&", i)
-        if j < 0:
-            out = out + s[i:]
-            break
-        out = out + s[i:j]
-        k = s.find(";", j)
-        if k < 0:
-            raise XMLModelError("unterminated entity reference")
-        ent = s[j : k + 1]
-        rep = None
-        for e, r in _ENT:
-            if ent == e:
-                rep = r
-        if rep is None:
-            if ent.startswith("&#x"):
-                try:
-                    rep = chr(int(ent[3:-1], 16))
-                except ValueError:
-                    raise XMLModelError("bad character reference") from None
-            elif ent.startswith("&#"):
-                try:
-                    rep = chr(int(ent[2:-1]))
-                except ValueError:
-                    raise XMLModelError("bad character reference") from None
-            else:
-                raise XMLModelError("undefined entity " + ent)
-        out = out + rep
-        i = k + 1
+    out = _REF.sub(_sub_ref, s)
+    # any '&' left over was not a well-formed reference (one unescape pass may itself produce '&')
+    if _REF.sub("", s).find("&") >= 0:
+        raise XMLModelError("bare '&' or undefined entity")
     return out
-
-
-def _is_ws(c: str) -> bool:
-    return c == " " or c == "\n" or c == "\t" or c == "\r"
 
 
 def parse(s: str):
     """-> minidom Document (documentElement is the root element)"""
     doc = minidom.Document()
     pos = 0
-    if s.startswith("<?xml"):
-        e = s.find("?>")
-        if e < 0:
-            raise XMLModelError("unterminated XML declaration")
-        pos = e + 2
-    while pos < len(s) and _is_ws(s[pos]):
-        pos += 1
+    m = _XMLDECL.match(s)
+    if m:
+        pos = m.end()
     el, pos = _element(doc, s, pos)
-    while pos < len(s) and _is_ws(s[pos]):
-        pos += 1
-    if pos != len(s):
+    if s[pos:].strip() != "":
         raise XMLModelError("junk after document element")
     doc.appendChild(el)
     return doc
 
 
-def _name(s: str, pos: int):
-    st = pos
-    n = len(s)
-    while pos < n:
-        c = s[pos]
-        if _is_ws(c) or c == ">" or c == "/" or c == "=" or c == "<" or c == '"' or c == "'" or c == "&":
-            break
-        pos += 1
-    if pos == st:
-        raise XMLModelError("name expected")
-    return s[st:pos], pos
-
-
 def _element(doc, s: str, pos: int):
-    n = len(s)
-    if pos >= n or s[pos] != "<":
-        raise XMLModelError("'<' expected")
-    if pos + 1 < n and (s[pos + 1] == "!" or s[pos + 1] == "?"):
-        raise XMLModelError("comment / CDATA / PI not supported by the model")
-    tag, pos = _name(s, pos + 1)
+    m = _STAG.match(s, pos)
+    if m is None:
+        raise XMLModelError("start tag expected")
+    tag = m.group(1)
     el = doc.createElement(tag)
-    while True:
-        had_ws = False
-        while pos < n and _is_ws(s[pos]):
-            pos += 1
-            had_ws = True
-        if pos >= n:
-            raise XMLModelError("unterminated start tag")
-        c = s[pos]
-        if c == ">":
-            pos += 1
-            break
-        if c == "/":
-            if pos + 1 < n and s[pos + 1] == ">":
-                return el, pos + 2
-            raise XMLModelError("bad empty-element tag")
-        if not had_ws:
-            raise XMLModelError("white space required before attribute")
-        an, pos = _name(s, pos)
-        while pos < n and _is_ws(s[pos]):
-            pos += 1
-        if pos >= n or s[pos] != "=":
-            raise XMLModelError("'=' expected")
-        pos += 1
-        while pos < n and _is_ws(s[pos]):
-            pos += 1
-        if pos >= n or (s[pos] != '"' and s[pos] != "'"):
-            raise XMLModelError("quote expected")
-        q = s[pos]
-        e = s.find(q, pos + 1)
-        if e < 0:
-            raise XMLModelError("unterminated attribute value")
-        raw = s[pos + 1 : e]
-        if "<" in raw:
-            raise XMLModelError("'<' in attribute value")
-        if el.hasAttribute(an):
+    for am in _ONE_ATTR.finditer(m.group(2)):
+        name = am.group(1)
+        raw = am.group(2) if am.group(2) is not None else am.group(3)
+        if el.hasAttribute(name):
             raise XMLModelError("duplicate attribute")
-        el.setAttribute(an, _unescape(raw))
-        pos = e + 1
-    # content
+        el.setAttribute(name, _unescape(raw))
+    pos = m.end()
+    if m.group(3) == "/":
+        return el, pos
     while True:
-        lt = s.find("<", pos)
-        if lt < 0:
-            raise XMLModelError("unterminated element " + tag)
-        if lt > pos:
-            raw = s[pos:lt]
+        tm = _TEXT.match(s, pos)
+        if tm is not None:
+            raw = tm.group(0)
             if "]]>" in raw:
                 raise XMLModelError("']]>' in character data")
             el.appendChild(doc.createTextNode(_unescape(raw)))
-        if lt + 1 < n and s[lt + 1] == "/":
-            cn, p2 = _name(s, lt + 2)
-            while p2 < n and _is_ws(s[p2]):
-                p2 += 1
-            if cn != tag or p2 >= n or s[p2] != ">":
+            pos = tm.end()
+        em = _ETAG.match(s, pos)
+        if em is not None:
+            if em.group(1) != tag:
                 raise XMLModelError("mismatched end tag")
-            return el, p2 + 1
-        child, pos = _element(doc, s, lt)
+            return el, em.end()
+        if pos >= len(s):
+            raise XMLModelError("unterminated element " + tag)
+        child, pos = _element(doc, s, pos)
         el.appendChild(child)
 
 
